@@ -31,6 +31,10 @@ func genSchema(r *gen.Rand) schema {
 			}
 			t.Fields = append(t.Fields, gfield{Name: fmt.Sprintf("%sf%d", strings.ToLower(names[i][:1]), j), Type: gen.Pick(r, fieldTypes), Args: args, File: t.File})
 		}
+		if r.Chance(1, 4) {
+			// two fields whose names differ only in the case of a later letter (nickName / nickname)
+			t.Fields = append(t.Fields, gfield{Name: strings.ToLower(names[i][:1]) + "F0", Type: gen.Pick(r, fieldTypes), File: t.File})
+		}
 		s.Types = append(s.Types, t)
 		q.Fields = append(q.Fields, gfield{Name: strings.ToLower(names[i]), Type: names[i], File: gen.Pick(r, files)})
 	}
